@@ -69,7 +69,7 @@ pub fn run(case: &J) -> R<J> {
             outcomes.push(match r {
                 Ok(Decision::Allow) => json!(["decision", "Allow"]),
                 Ok(Decision::Deny) => json!(["decision", "Deny"]),
-                Err(cedar_policy::BatchedEvalError::InsufficientIterations(_)) => json!(["insufficient"]),
+                Err(cedar_policy_core::batched_evaluator::err::BatchedEvalError::InsufficientIterations(_)) => json!(["insufficient"]),
                 Err(e) => json!(["error", e.to_string()]),
             });
             calls.push(J::Array(loader.calls));
